@@ -91,6 +91,34 @@ Checks(o) ==
            isCur(x) == LET i == cur(x.r.k) IN i > 0 /\ recs[i].ver = x.r.ver /\ (x.r.ver > 0 => recs[i].val = x.r.val)
        IN (IF \A x \in Y : isCur(x) THEN {} ELSE {<<sid, e.n, "C18_OnlyCurrent" \o TombTag(CHOOSE x \in Y : ~isCur(x))>>})
           \cup (IF \A x, y \in Y : (x.r.k = y.r.k /\ isCur(x) /\ isCur(y)) => x = y THEN {} ELSE {<<sid, e.n, "C18_Once">>})
+  ELSE IF e.a = "Recovered" THEN
+       \* C06 / C07: what a fresh process serves from the directory as the kill left it.
+       \* W(k)   = records built for k before the kill (the first e.nrecs records)
+       \* D(k)   = the newest of them that the independent scan found intact on disk (0 = none)
+       \* a read may return any member of W(k) at least as new as D(k); a miss only if nothing is
+       \* durable or an allowed member is a delete; an error or a foreign/older value never.
+       LET n == IF e.nrecs <= Len(recs) THEN e.nrecs ELSE Len(recs)
+           W(k) == {i \in 1..n : recs[i].key = k}
+           Dset == {e.durable[i] : i \in 1..Len(e.durable)}
+           Dur(k) == {i \in W(k) : \E d \in Dset : d.k = k /\ d.ver = recs[i].ver /\ (d.ver > 0 => d.val = recs[i].val)}
+           D(k) == MaxOf(Dur(k), 0)
+           Allowed(k) == {i \in W(k) : i >= D(k)}
+           ok(k, g) == IF g.res = "hit" /\ g.ver > 0
+                         THEN \E i \in Allowed(k) : recs[i].ver = g.ver /\ recs[i].val = g.val /\ recs[i].flag = g.flag
+                       ELSE IF g.res = "miss" \/ (g.res = "hit" /\ g.ver < 0)
+                         THEN D(k) = 0 \/ \E i \in Allowed(k) : recs[i].ver < 0
+                       ELSE FALSE
+           \* C07: a key not written during the pass reads exactly as the reference map says
+           exact(k, g) == ReadOK(g, ref[k], 2)
+           K == {k \in DOMAIN e.reads : k \in Keys /\ ~Colliding(k)}
+           prop == IF e.ingc THEN "C07_Recovered" ELSE "C06_Recovered"
+           f11(k) == e.reads[k].res = "err" /\ \E i \in 1..Len(e.hintahead) : e.hintahead[i] = e.reads[k].c
+           f6(k) == e.ingc /\ gc.begin = 0 /\ ref[k].ver <= 0 /\ e.reads[k].res = "hit" /\ e.reads[k].ver > 0
+       IN IF e.childdied THEN {<<sid, e.n, prop \o "_ChildDied">>}
+          ELSE IF ~e.started
+            THEN (IF e.inside \/ e.unaligned THEN {} ELSE {<<sid, e.n, prop \o "_Refused">>})
+          ELSE {<<sid, e.n, prop \o (IF f11(k) THEN "!F11" ELSE IF f6(k) THEN "!F6" ELSE "")>> :
+                   k \in {k \in K : IF e.ingc THEN ~exact(k, e.reads[k]) ELSE ~ok(k, e.reads[k])}}
   ELSE IF e.a = "ReadAll" THEN
        {<<sid, e.n, (IF Colliding(k) THEN "C13_ReadAll" ELSE IF e.aftergc THEN "C03_ReadAll" ELSE IF e.afteropen THEN "C02_ReadAll" ELSE "C01_ReadAll") \o KfTag(k)>> :
            k \in {k \in DOMAIN e.reads : ~ReadOK(e.reads[k], ref[k], LevelOf(k))}}
@@ -209,6 +237,10 @@ TrScan ==
   /\ IsEv("Scan") /\ Quiet /\ Adv /\ sid' = sid
   /\ Settle /\ obs' = [e |-> Ev, pre |-> NoRef, aux |-> NoAux] /\ UNCHANGED vars
 
+TrRecovered ==
+  /\ IsEv("Recovered") /\ Quiet /\ Adv /\ sid' = sid
+  /\ Settle /\ obs' = [e |-> Ev, pre |-> NoRef, aux |-> NoAux] /\ UNCHANGED vars
+
 TrReadAll ==
   /\ IsEv("ReadAll") /\ Quiet /\ Adv /\ sid' = sid
   /\ Settle /\ obs' = [e |-> Ev, pre |-> NoRef, aux |-> NoAux] /\ UNCHANGED vars
@@ -220,7 +252,7 @@ TrEnd ==
 \* an event this specification has no action for: skip it, note it
 TrOther ==
   /\ l <= Len(Trace) /\ Quiet /\ Adv /\ sid' = sid
-  /\ Trace[l].a \notin {"Reset", "Set", "Get", "Incr", "Flush", "RotFlush", "Close", "Open", "ReadAll", "End", "GC", "Scan"}
+  /\ Trace[l].a \notin {"Reset", "Set", "Get", "Incr", "Flush", "RotFlush", "Close", "Open", "ReadAll", "End", "GC", "Scan", "Recovered"}
   /\ Stuck("unknown-event")
 
 Silent == ~Quiet /\ Continue /\ UNCHANGED tvars
@@ -230,7 +262,7 @@ TraceInit ==
   /\ Init([hashOf |-> [k \in Keys |-> CHOOSE h \in HashIds : TRUE], rank |-> [k \in Keys |-> 0], fileMax |-> 4,
            splitCap |-> 2, checkVHash |-> FALSE, dumpEager |-> FALSE, bodyMaxBlk |-> 1, mut |-> {}])
 
-TraceNext == TrReset \/ TrSet \/ TrGet \/ TrIncr \/ TrFlush \/ TrRotFlush \/ TrClose \/ TrOpen \/ TrGC \/ TrScan
+TraceNext == TrReset \/ TrSet \/ TrGet \/ TrIncr \/ TrFlush \/ TrRotFlush \/ TrClose \/ TrOpen \/ TrGC \/ TrScan \/ TrRecovered
              \/ TrReadAll \/ TrEnd \/ TrOther \/ Silent
 
 TraceSpec == TraceInit /\ [][TraceNext]_<<vars, tvars>>
